@@ -122,11 +122,22 @@ type FuncContract struct {
 	Trusted  string
 	NoOverflow string
 	Wraparound string
+	Callbacks []*CallbackSpec // what is logged when a function-typed parameter is called
 	Effects  []*Clause // ghost effect-log appends: Label = log name, Expr = logged string value
 	File     string
 	Line     int
 	Imports  []*ast.ImportSpec
 	Instance string // for generic functions: instantiation to verify, e.g. "[[]string,string]"
+}
+
+// CallbackSpec: `callback F(params) log NAME EXPR` — each call of the function-typed parameter F
+// appends the string EXPR (over F's own parameters, evaluated in the state at the call) to the
+// ghost log NAME of F.
+type CallbackSpec struct {
+	Param  string
+	Params []ParamDecl
+	Log    string
+	Clause *Clause
 }
 
 // AllParams returns receiver (if any) followed by the parameters.
@@ -163,7 +174,7 @@ type ContractFile struct {
 var clauseKeywords = map[string]bool{
 	"requires": true, "ensures": true, "modifies": true, "pure": true, "observer": true, "loop": true,
 	"inline": true, "uses": true, "induct": true, "decreases": true, "witness": true, "trusted": true,
-	"trigger": true, "instance": true, "nooverflow": true, "assert": true, "wraparound": true, "effect": true,
+	"trigger": true, "instance": true, "nooverflow": true, "assert": true, "wraparound": true, "effect": true, "callback": true,
 }
 
 // ScanContractFile extracts the //@ blocks of a Go source file.
@@ -468,6 +479,25 @@ func (cf *ContractFile) addClause(fc *FuncContract, text string, line int) error
 			rest = "no reason given"
 		}
 		fc.NoOverflow = rest
+	case "callback":
+		// callback NAME(params) log LOGNAME EXPR
+		op := strings.Index(rest, "(")
+		cl := strings.Index(rest, ")")
+		if op < 0 || cl < op {
+			return bad("callback: expected NAME(params) log LOGNAME EXPR")
+		}
+		name := strings.TrimSpace(rest[:op])
+		ps, err := parseVarDecls(rest[op+1 : cl])
+		if err != nil {
+			return bad("callback: %v", err)
+		}
+		tail := strings.Fields(rest[cl+1:])
+		if len(tail) < 3 || tail[0] != "log" {
+			return bad("callback: expected `log LOGNAME EXPR` after the parameter list")
+		}
+		expr := strings.TrimSpace(strings.SplitN(strings.TrimSpace(rest[cl+1:]), tail[1], 2)[1])
+		fc.Callbacks = append(fc.Callbacks, &CallbackSpec{Param: name, Params: ps, Log: tail[1],
+			Clause: &Clause{Kind: "cblog", Label: name + "_" + tail[1], Loop: -1, Expr: expr, Line: line}})
 	case "effect":
 		k := strings.IndexAny(rest, " \t")
 		if k < 0 {
@@ -739,6 +769,10 @@ func (d *desugarer) expr(ts []tok, old bool) string {
 			sb.WriteString(t.lit + "_old")
 		case t.tok == token.IDENT && old && t.lit == "vLogStr":
 			sb.WriteString("vLogStrOld")
+		case t.tok == token.IDENT && old && t.lit == "vCbLog":
+			sb.WriteString("vCbLogOld")
+		case t.tok == token.IDENT && old && t.lit == "vCbOK":
+			sb.WriteString("vCbOKOld")
 		default:
 			sb.WriteString(t.lit)
 		}
@@ -884,6 +918,19 @@ func (cf *ContractFile) GenGo(sb *strings.Builder) error {
 			if err := fc.genClause(sb, c, false, nil, "string"); err != nil {
 				return err
 			}
+		}
+		for _, cb := range fc.Callbacks {
+			goExpr, _, err := Desugar(cb.Clause.Expr, nil)
+			if err != nil {
+				return fmt.Errorf("%s:%d: %v", fc.File, cb.Clause.Line, err)
+			}
+			cb.Clause.GoFunc = fmt.Sprintf("%s__cblog__%s", fc.baseName(), sanitizeIdent(cb.Clause.Label))
+			var ps []string
+			for _, p := range cb.Params {
+				ps = append(ps, p.Name+" "+p.Type)
+			}
+			fmt.Fprintf(sb, "// callback %s log %s: %s\n//line %s:%d\nfunc %s(%s) string { return %s }\n\n", cb.Param, cb.Log, cb.Clause.Expr, fc.File, cb.Clause.Line,
+				cb.Clause.GoFunc, strings.Join(ps, ", "), goExpr)
 		}
 		var ns []int
 		for n := range fc.Loops {
